@@ -39,6 +39,37 @@ STRENGTHENED = {
  "C19-2b": "manifests only with two streams decoded concurrently: reported by the race pass of C17 (two in ports listening at once)",
  "C20-1b": "missed at first (songs of at most 3 bars): songs of 300..5500 bars (more than 65535 thirty-seconds) added to C20",
  "C20-2b": "missed at first (songs were always built with AddBar): songs exported, imported with FromSMF, edited through their public fields and exported again are now compared with the bar model read off the edited song",
+ "C02-1c": "manifests only when two files are decoded concurrently (a one-byte buffer hoisted to package scope): missed at first; C02 now decodes two files in two threads that are switched inside their Read calls, every schedule with at most two switches (I/O-seam interleaving)",
+ "C02-2c": "NOT caught: only smf.ReadFile on a path whose Stat().Size() differs from its content (named pipe, /proc-like file) is affected; C02 observes smf.ReadFrom and reads through six kinds of io.Reader, but not through ReadFile on a FIFO",
+ "C03-1c": "missed at first (WriteFile never exercised): C03 now writes a value with WriteFile to a path that already holds a longer or shorter file and compares the file with WriteTo's bytes",
+ "C03-2c": "missed at first (payload contents were arbitrary bytes): 'lookalike' alphabet added to C01/C03 (payloads that end in or consist of FF 2F 00, look like a chunk header or start with a status byte)",
+ "C04-1c": "missed at first (time deltas 0, 1, 5 ms only): every pause length 0..6000 ms plus minute/hour/day boundaries added to C04",
+ "C04-2c": "the order in which listen options are passed: all live checks now pass the options in both orders; reported by C06 (a sysex above the configured size is delivered)",
+ "C05-1c": "missed at first (at most a few unknown chunks): C05 reads inputs of 400000 unknown chunks / 800000 events / 65535 tracks with the goroutine stack limited to 16 MiB, so recursion that grows with the input is a fatal error of the worker (fatal:deep-inputs:stack-overflow)",
+ "C06-1c": "missed at first (buffer sizes only ever grew within a process): the size sweep now runs ascending and then descending",
+ "C06-2c": "missed at first (options always passed in one order): both orders now; reported by C06",
+ "C07-1c": "a buffer shared between deliveries: reported by C13 (recorded messages alias each other) and, after the loopback wrapper started to keep the very slices it is handed, by C04",
+ "C08-2c": "missed at first (payload contents were arbitrary bytes): every value of the first two payload bytes of every text-carrying meta type (payload lengths 2..5) added to C08",
+ "C09-1c": "missed at first (header length always 6): inputs with a header chunk of 7..10 bytes added to C09",
+ "C09-2c": "missed at first: inputs that declare one track more than present and end in each of 16 byte classes added to C09",
+ "C10-2c": "missed at first (header counts always matched): files whose header declares 0 tracks or one too many added to C10's source faults",
+ "C11-1c": "missed at first (Do was only used unfiltered): Only(NoteOn)-filtered iteration over a track with a delta-0 note-on after a filtered-out event added to C11",
+ "C12-1c": "a stale tempo for several tempo changes on one tick: reported by C11",
+ "C12-2c": "missed at first: byte-identical messages doubled on a tick and Only with two types added to C12",
+ "C13-1c": "missed at first (one recording at a time): two overlapping SMF.RecordFrom recordings from two ports into one file added to C13",
+ "C13-2c": "an empty delivery loses its time delta: reported by C04 (empty-chunks partitions)",
+ "C15-1c": "missed at first (no valid multi-byte UTF-8 in the contents): a UTF-8 content pattern (2-, 3- and 4-byte runes) added to C15",
+ "C15-2c": "missed at first: an empty text read into a destination that holds an earlier result added to C15's re-use sequence",
+ "C16-1c": "a delta clamp in Track.Add: reported by C01 (delta sweep beyond 2^28)",
+ "C16-2c": "NOT caught: needs a hand-built meta message FF 2F with a payload in mid-track; explicit end-of-track-typed messages passed to Add are outside the domain of C01/C03/C16 (DESIGN.md, C01 domain decisions), and whether such a message is itself an end-of-track is debatable (the author says so too)",
+ "C17-1c": "missed at first: scenario S8 (the out helper cannot be started while another thread sends on the closed port)",
+ "C17-2c": "missed at first: scenario S9 (a stop function called again after the port was closed and re-opened)",
+ "C18-1c": "missed at first: C18 now scribbles over a parsed value and then builds and parses the same message again",
+ "C18-2c": "missed at first (fresh receiver per message): one GoTo receiver parsed into for every ordered pair of device ids",
+ "C19-1c": "missed at first (no buffered readers): bufio.Reader of 16, 64, 256 and 4096 bytes added to C19's reader kinds",
+ "C19-2c": "two concurrent Sends sharing a scratch buffer under a read lock: reported by C17 (scenario S5 and the race pass)",
+ "C20-1c": "missed at first (no track names): track names that coincide with names the export uses itself ('bars', 'track-0') added to C20",
+ "C20-2c": "missed at first (channel always equal to track): the same voice (channel, key) doubled on two tracks and ending on the same tick added to C20",
 }
 rows = []
 for d in sorted(glob.glob(V + "/seeded/*/meta.json")):
@@ -65,5 +96,5 @@ with open(V + "/seeded/README.md", "w") as f:
         f.write("* **%s** — %s\n" % (sid, need))
     n = len(rows)
     c = sum(1 for r in rows if r[2] != "NOT CAUGHT")
-    f.write("\n%d of %d kept changes are reported by at least one check.\n" % (c, n))
+    f.write("\n%d of %d kept changes are reported by at least one check. Those that are not are marked NOT caught in the notes column, with the reason.\n" % (c, n))
 print("rows", len(rows))
